@@ -193,6 +193,12 @@ fn sequence_of(b: &Value) -> (Vec<Value>, Vec<usize>) {
 }
 
 fn follower_path(reqs: &[Value], groups: &[usize]) -> anyhow::Result<(Value, tempfile::TempDir, NodeProc)> {
+    follower_path_echo(reqs, groups, false)
+}
+
+/// `echo`: this follower is the node the publishes were sent to - it routed each one to the leader and echoes the value
+/// locally (ConfigCmd::SetTmpValue) before the committed entry reaches it
+fn follower_path_echo(reqs: &[Value], groups: &[usize], echo: bool) -> anyhow::Result<(Value, tempfile::TempDir, NodeProc)> {
     let dir = tempfile::tempdir()?;
     let d = dir.path().to_string_lossy().into_owned();
     let mut node = NodeProc::start(&d, 700)?;
@@ -203,6 +209,9 @@ fn follower_path(reqs: &[Value], groups: &[usize]) -> anyhow::Result<(Value, tem
         for r in &reqs[pos..pos + g] {
             let req = to_client_request(r, idx);
             node.call(&json!({"op":"append_req","index":idx,"term":1,"req":req}))?;
+            if echo && r["t"] == "cfg_set" {
+                node.call(&json!({"op":"cfg_tmp","data_id":r["k"],"group":GROUP,"value":r["v"]}))?;
+            }
             items.push(json!({"index": idx, "req": req}));
             idx += 1;
         }
@@ -243,6 +252,11 @@ fn run_c07(i: usize, b: &Value) -> anyhow::Result<Value> {
     n1.kill();
     let (dump_f1, _d2, n2) = follower_path(&reqs, &[reqs.len()])?;
     n2.kill();
+    let (dump_fe, _d3, n3) = follower_path_echo(&reqs, &groups, true)?;
+    n3.kill();
+    if dump_l != dump_fe {
+        return Ok(mismatch(i, 0, "leader path and the path of a follower that routed and echoed the publishes differ", json!(first_diff(&dump_l, &dump_fe)), json!({"groups":groups})));
+    }
     if dump_l != dump_f {
         return Ok(mismatch(i, 0, "leader path and follower batch path differ", json!(first_diff(&dump_l, &dump_f)), json!({"groups":groups})));
     }
